@@ -434,10 +434,26 @@ void token_tree_free(token * t) {
 	return;
 #else
 	token * n;
+	token * last;
 
+	// Iterate rather than recurse -- the nesting depth of a tree is not bounded.
+	// The children of a token are freed by splicing them in front of the
+	// remainder of the chain.
 	while (t != NULL) {
 		n = t->next;
-		token_free(t);
+
+		if (t->child != NULL) {
+			last = t->child;
+
+			while (last->next != NULL) {
+				last = last->next;
+			}
+
+			last->next = n;
+			n = t->child;
+		}
+
+		free(t);
 
 		t = n;
 	}
